@@ -16,7 +16,10 @@ RULE = ('case = (byte stream, two read() schedules); the real net_read() is iter
         'starts at the stream start or after CRLF; sched: error-collapsed sequences equal under both schedules). Streams: short ones over '
         '{a . CR LF}, generated line lengths 0..3 and 996..1004 and 2-3x the buffer with stray CR/LF injected; schedules: 1-byte reads, '
         'maximal reads, random, forced cuts around CR/LF and offsets 1000..1002. non-trivial = at least one line and one error item, or a line '
-        'longer than 900 octets; distinct by case text')
+        'longer than 900 octets; distinct by case text. Engine session (whole Qsmtpd, see C02/C08): 300 (thorough 6000) sessions whose DATA payloads hold '
+        'end-marker lookalikes - dot + NUL, dot + text, dots in the tail of over-long lines (999..3004 octets), behind a stray CR or bare LF, each behind '
+        'lines of 0..2 octets, followed by lines that are commands if data mode ends too early, whole or cut into segments; replies and hand-offs '
+        'compared with the extracted session model, well-formed payloads judged by handoff_msg_ok')
 TRUSTED_BASE = [
     'Coq 8.16.1 kernel; vm_compute only for the two refutation witnesses and the example',
     'axioms: none (Closed under the global context for all three theorems)',
@@ -24,11 +27,11 @@ TRUSTED_BASE = [
     'hand-written model coq/Model/NetRead.v of find_eol / readinput / loop_long / net_read, tied to lib/netio.c by the correspondence run (item sequences and consumed-byte counts)',
     'read()/poll() replaced in the harness by a schedule-driven stub: the kernel is modelled as delivering any non-empty prefix of the pending bytes',
     'extraction (ExtrOcamlBasic only), ocaml/netio_driver.ml, harness/netio_h.c, gcc ASan/UBSan build',
-]
+] + ['session engine: ' + x for x in _sc.TRUSTED_COMMON]
 ASSUMPTIONS = [
     'plain-text connection (ssl == NULL); the TLS read path ssl_timeoutread is outside the model',
     'a read() returning 0 is a closed connection (dieerror); timeouts are not modelled',
-    'DATA-mode consequences (queueing) are decided by the session engine, not here',
+    'DATA-mode consequences (where smtp_data sees the end of the message, what is queued) are decided by the session engine (second engine of this check; model coq/Model/Session.v, theorems C02_message / C02_message_checker_sound of property C02)',
 ]
 LEVEL_TEXT = ('Coq theorem for all streams and all read schedules: every line handed out by the reader is a piece of the stream directly followed by CRLF, '
               'free of CR/LF, at most 999 octets (C05_line_shape); for every stream in which CR/LF occur only as CRLF the item sequence equals a schedule-free specification for ALL segmentations (C05_schedule_independent_clean). The stronger wording of the property (no resynchronisation inside a malformed line; '
